@@ -640,6 +640,22 @@ func (c *checker) byzMessages(g *gstate) []*vmsg {
 				if len(cv) >= q {
 					add(c.tbl.mk(MsgDecided, b, r, v, 0, 0, cv[:q]))
 				}
+				if !sc.noForge {
+					// commits of honest members only, for v, completed with the coalition's commit for another value
+					var hon []*vmsg
+					for _, m := range cv {
+						if !sc.byz[m.src] {
+							hon = append(hon, m)
+						}
+					}
+					if len(hon) >= q-1 {
+						for _, v2 := range sc.values {
+							if v2 != v {
+								add(c.tbl.mk(MsgDecided, b, r, v2, 0, 0, append(append([]*vmsg{}, hon[:q-1]...), c.tbl.mk(MsgCommit, b, r, v2, 0, 0, nil))))
+							}
+						}
+					}
+				}
 				if len(cv) >= q-1 && q >= 2 && !sc.noForge {
 					short := cv[:q-1]
 					add(c.tbl.mk(MsgDecided, b, r, v, 0, 0, short))                                         // too few
